@@ -30,6 +30,12 @@ pub enum Case {
     /// <= 2n-1 (orthonormal basis, signed coefficients): earlier rules see constants that never agree, the two rules
     /// before see zero, the tolerance exceeds the value - what comes back is the rule applied to the polynomial
     ConsumedPoly { family: usize, row: usize, seed: u64 },
+    /// the tanh-sinh table as `integrate` consumes it on [-1,1]: an instrumented integrand whose level values never
+    /// settle records every abscissa - the centre, then every pair +x, -x of every level, whatever the tolerance
+    ConsumedDeNodes { tol_exp: i32 },
+    /// one tanh-sinh pair as consumed: the integrand is `value` at the single evaluation (level, index, side) and 0
+    /// elsewhere; the result must be what the documented loop gives with the table weight applied to that value
+    ConsumedDeWeight { level: usize, j: usize, neg: bool, big: u8, tol_exp: i32 },
 }
 
 fn call_integrator(f: Family, g: &mut dyn FnMut(f64) -> f64, tol: f64) -> Result<Result<f64, String>, Caught> {
@@ -87,6 +93,41 @@ fn splitmix(x: &mut u64) -> f64 {
     z = (z ^ (z >> 27)).wrapping_mul(0x94D049BB133111EB);
     z ^= z >> 31;
     (z >> 11) as f64 / (1u64 << 53) as f64 * 2.0 - 1.0
+}
+
+/// the documented tanh-sinh loop over the table of the working tree (reference for the rule as consumed)
+fn de_reference(f: &mut dyn FnMut(f64) -> f64, tol: f64) -> Result<f64, ()> {
+    let mut error_estimate = 1.0 + tol;
+    let mut evals = 1usize;
+    let mut current_delta: f64 = 0.0;
+    let mut integral = std::f64::consts::PI * f(0.0);
+    for level in tables::WEIGHTS_DE.iter() {
+        let mut new = 0.0;
+        for &(w, x) in level.iter() {
+            new += w * (f(x) + f(-x));
+        }
+        evals += 2 * level.len();
+        let previous_delta_ln = current_delta.ln();
+        current_delta = (0.5 * integral - new).abs();
+        integral = 0.5 * integral + new;
+        if evals <= 13 {
+            continue;
+        }
+        if current_delta == 0.0 {
+            error_estimate = 0.0;
+            break;
+        }
+        let r = current_delta.ln() / previous_delta_ln;
+        error_estimate = if r > 1.9 && r < 2.1 { current_delta * current_delta } else { current_delta };
+        if error_estimate < tol {
+            break;
+        }
+    }
+    if error_estimate < tol {
+        Ok(integral)
+    } else {
+        Err(())
+    }
 }
 
 const EXACT_TOL: f64 = 1e-9;
@@ -366,6 +407,108 @@ pub fn run_case(case: &Case) -> Outcome {
             }
             o.pass()
         }
+        Case::ConsumedDeNodes { tol_exp } => {
+            o.label("consumed-tanh-sinh-nodes");
+            o.nontrivial = true;
+            let tol = 10f64.powi(*tol_exp);
+            let starts: Vec<usize> = {
+                let mut v = vec![1usize];
+                for l in tables::WEIGHTS_DE.iter() {
+                    v.push(v.last().unwrap() + 2 * l.len());
+                }
+                v
+            };
+            let mut xs: Vec<f64> = vec![];
+            let res = guard(|| {
+                bi::integrate::<f64, _>(-1.0, 1.0, |x| {
+                    let i = xs.len();
+                    xs.push(x);
+                    // level values alternate between 0 and 1e9: no two consecutive estimates agree
+                    let level = starts.iter().position(|&s| i < s).unwrap_or(starts.len());
+                    if level % 2 == 0 {
+                        1e9
+                    } else {
+                        0.0
+                    }
+                }, tol)
+            });
+            match res {
+                Ok(Err(_)) => {}
+                Ok(Ok(v)) => return o.fail(format!("integrate: an integrand whose level values alternate between 0 and 1e9 returned Ok({v:e}) at tol {tol:e}")),
+                Err(c) => return o.fail(format!("{c:?}")),
+            }
+            let mut want: Vec<f64> = vec![0.0];
+            for l in tables::WEIGHTS_DE.iter() {
+                for &(_, x) in l.iter() {
+                    want.push(x);
+                    want.push(-x);
+                }
+            }
+            if xs.len() != want.len() || xs.iter().zip(want.iter()).any(|(a, b)| a.to_bits() != b.to_bits() && !(*a == 0.0 && *b == 0.0)) {
+                let k = xs.iter().zip(want.iter()).position(|(a, b)| a.to_bits() != b.to_bits() && !(*a == 0.0 && *b == 0.0)).unwrap_or(xs.len().min(want.len()));
+                return o.fail(format!("integrate on [-1,1] at tol {tol:e}: {} evaluations, the table has {} abscissae; first difference at evaluation {k}: {:?} vs table {:?}", xs.len(), want.len(), xs.get(k), want.get(k)));
+            }
+            o.pass()
+        }
+        Case::ConsumedDeWeight { level, j, neg, big, tol_exp } => {
+            o.label("consumed-tanh-sinh-weight");
+            o.nontrivial = true;
+            let Some(l) = tables::WEIGHTS_DE.get(*level) else { return o.discard("level") };
+            if *j >= l.len() {
+                return o.discard("index");
+            }
+            let tol = 10f64.powi(*tol_exp);
+            let value = match big {
+                0 => 1.0,
+                1 => 1e200,
+                2 => -3e160,
+                _ => 1e-200,
+            };
+            let start: usize = 1 + tables::WEIGHTS_DE.iter().take(*level).map(|l| 2 * l.len()).sum::<usize>();
+            let target = start + 2 * j + usize::from(*neg);
+            let mut count = 0usize;
+            let res = guard(|| {
+                bi::integrate::<f64, _>(-1.0, 1.0, |_x| {
+                    let i = count;
+                    count += 1;
+                    if i == target {
+                        value
+                    } else {
+                        0.0
+                    }
+                }, tol)
+            });
+            let mut rc = 0usize;
+            let want = de_reference(&mut |_x| {
+                let i = rc;
+                rc += 1;
+                if i == target {
+                    value
+                } else {
+                    0.0
+                }
+            }, tol);
+            match (res, want) {
+                (Err(c), _) => o.fail(format!("{c:?}")),
+                (Ok(Ok(v)), Ok(w)) => {
+                    if count != rc {
+                        return o.fail(format!("integrate used {count} evaluations for a probe at level {level} index {j}; the documented loop over the table uses {rc}"));
+                    }
+                    if (v - w).abs() <= 1e-14 * w.abs() {
+                        o.pass()
+                    } else {
+                        o.fail(format!("integrate: an integrand that is {value:e} at the single abscissa (level {level}, index {j}, {}) and 0 elsewhere gives {v:e}; the table weight applied by the documented loop gives {w:e}", if *neg { "-x" } else { "+x" }))
+                    }
+                }
+                (Ok(Err(_)), Err(())) => {
+                    if count != rc {
+                        return o.fail(format!("integrate used {count} evaluations before giving up on a probe at level {level} index {j}; the documented loop over the table uses {rc}"));
+                    }
+                    o.pass()
+                }
+                (Ok(a), b) => o.fail(format!("integrate returned {a:?} for a single-abscissa probe (level {level}, index {j}, value {value:e}, tol {tol:e}); the documented loop over the table gives {b:?}")),
+            }
+        }
         Case::EndToEnd { family, k } => {
             let f = FAMILIES[*family % 5];
             o.label(format!("end-to-end-{}", f.name()));
@@ -446,9 +589,22 @@ pub fn run(opts: &Opts) -> i32 {
             }
         }
     }
+    // the tanh-sinh table as consumed by `integrate`
+    for tol_exp in [-12, -8, -6, -3, -1, 1, 3] {
+        spec.enumerated.push(Case::ConsumedDeNodes { tol_exp });
+    }
+    for (level, l) in tables::WEIGHTS_DE.iter().enumerate() {
+        for j in 0..l.len() {
+            for neg in [false, true] {
+                for (big, tol_exp) in [(0u8, 1), (0, -3), (1, 1), (2, -3), (3, -3)] {
+                    spec.enumerated.push(Case::ConsumedDeWeight { level, j, neg, big, tol_exp });
+                }
+            }
+        }
+    }
     spec.cases = opts.tier.pick(5_000, 100_000);
-    spec.exhaustive = Some("every row of the five Gaussian tables (structure, all monomials of degree <= 2n-1, independent Golub-Welsch/closed-form rule) and every tanh-sinh pair; the nodes of every rule and the weights of every rule from the fourth on as applied by the public integrators".into());
-    spec.rule = "enumerated: every row n of WEIGHTS_LEGENDRE/HERMITE/LAGUERRE/CHEBYSHEV/CHEBYSHEV_SECOND of the working tree, expanded as the integrators consume it (x == 0.0 once, otherwise +-x): exactly n points, distinct (>1e-12), inside the domain, positive weights, every monomial of degree <= 2n-1 against the exact moment within 1e-9 sum w|p|, node/weight agreement with an independently computed rule (Golub-Welsch eigenproblem, closed-form Chebyshev) within 1e-10; random polynomials of degree <= 2n-1 in the orthonormal basis (8/64 per row enumerated + generated seeds); every tanh-sinh (w,x) against the double-exponential formula (rel 1e-12 / abs 4 eps); end-to-end integrate_* on monomials. As consumed by the public integrators: a never-converging instrumented integrand records every abscissa (rule n must be asked for exactly the n table nodes, n(n+1)/2 evaluations in total) and an integrand that is 1 at a single evaluation reads out the weight applied there for every rule from the fourth on (bit-equal to the table); the same read-out with a random signed polynomial of degree <= 2n-1 at all nodes of the rule (2/8 per row enumerated + generated seeds) must give its exact integral within 1e-9 sum w|p| - the rule as a linear functional. Non-trivial = rows with n >= 2, all tanh-sinh pairs. Distinct = distinct case JSON.".into();
+    spec.exhaustive = Some("every row of the five Gaussian tables (structure, all monomials of degree <= 2n-1, independent Golub-Welsch/closed-form rule) and every tanh-sinh pair (also as consumed by integrate: every abscissa, every weight); the nodes of every rule and the weights of every rule from the fourth on as applied by the public integrators".into());
+    spec.rule = "enumerated: every row n of WEIGHTS_LEGENDRE/HERMITE/LAGUERRE/CHEBYSHEV/CHEBYSHEV_SECOND of the working tree, expanded as the integrators consume it (x == 0.0 once, otherwise +-x): exactly n points, distinct (>1e-12), inside the domain, positive weights, every monomial of degree <= 2n-1 against the exact moment within 1e-9 sum w|p|, node/weight agreement with an independently computed rule (Golub-Welsch eigenproblem, closed-form Chebyshev) within 1e-10; random polynomials of degree <= 2n-1 in the orthonormal basis (8/64 per row enumerated + generated seeds); every tanh-sinh (w,x) against the double-exponential formula (rel 1e-12 / abs 4 eps); end-to-end integrate_* on monomials. As consumed by the public integrators: a never-converging instrumented integrand records every abscissa (rule n must be asked for exactly the n table nodes, n(n+1)/2 evaluations in total) and an integrand that is 1 at a single evaluation reads out the weight applied there for every rule from the fourth on (bit-equal to the table); the same read-out with a random signed polynomial of degree <= 2n-1 at all nodes of the rule (2/8 per row enumerated + generated seeds) must give its exact integral within 1e-9 sum w|p| - the rule as a linear functional. The tanh-sinh table as `integrate` consumes it on [-1,1]: with an integrand whose level values never settle, every abscissa of every level (centre, then +x, -x per pair) is evaluated bit-exactly and in order at tolerances 1e-12 ... 1e3; an integrand that is 1, 1e200, -3e160 or 1e-200 at a single evaluation and 0 elsewhere must give what the documented loop gives with the table weight applied to that value (1e-14 relative, same Ok/Err, same number of evaluations), for every pair and both sides. Non-trivial = rows with n >= 2, all tanh-sinh pairs. Distinct = distinct case JSON.".into();
     spec.assumptions = vec!["exact moments from Gamma-function closed forms".into(), "nalgebra SymmetricEigen accurate to ~1e-13 for the Jacobi matrices up to n = 27".into()];
     spec.max_discard_frac = 0.0;
     run_spec(spec, opts)
